@@ -86,6 +86,10 @@ func firstDiff(a, b string) string {
 
 // twin files: A executes the history with its saves, B the same history without them
 func (c *Ctx) checkHistC02(h hist, cases *[]mcase) {
+	c.guard("C02_no_panic", h, func() { c.checkHistC02x(h, cases) })
+}
+
+func (c *Ctx) checkHistC02x(h hist, cases *[]mcase) {
 	a, stylesA, errA := runHist(h)
 	defer a.Close()
 	hb := eraseSaves(h)
